@@ -3,6 +3,7 @@ import PMV.Proofs.Rename
 import PMV.Proofs.RenameResolve
 import PMV.Proofs.Resolve
 import PMV.Proofs.ResolveRename
+import PMV.Proofs.ResolveCover
 /-
   C03 — Renaming preserves which binding every name refers to.
   Proved here (on the model of NameAssigner over abstract bindings, tied to the code by feeding the
@@ -130,6 +131,31 @@ theorem lookup_after_renaming (t t' : Resolve.Tree) (rs : List Result) (r : Resu
     (homeIn : ∀ r' ∈ rs, r'.b.home ∈ r'.b.scope) :
     Resolve.getBinding t' y fuel n = Resolve.getBinding t x fuel n :=
   Resolve.lookup_after_renaming t t' rs r x y fuel n h hr hname hfin horig cover clash kept homeIn
+
+/-- T03.7: `renamer.reservation_scope` adds, for every reference, each namespace on the parent chain from the reference's namespace
+    up to the binding's home.  In a well-formed namespace tree that covers the lookup path below the home — Python's lookup path is
+    a strictly descending part of that parent chain — which is the hypothesis `cover` of T03.4 / T03.6. -/
+theorem cover_from_reservation_chains (t t' : Resolve.Tree) (hw : Resolve.WFTree t) (rs : List Result) (x y : String)
+    (h : Resolve.RenamedFor t t' rs x y) (scope : List Ns) (fuel n home : Nat)
+    (horig : Resolve.getBinding t x fuel n = some home)
+    (chain : ∀ a, Resolve.Anc t a n → home < a → a ∈ scope) :
+    ∀ a ∈ (Resolve.lookupPath t x fuel n).takeWhile (fun a => !bindsOrig rs a x), a ∈ scope :=
+  Resolve.cover_of_parent_chain t t' hw rs x y h scope fuel n home horig chain
+
+/-- T03.6 with `cover` replaced by what `reservation_scope` provides (T03.7). -/
+theorem lookup_after_renaming_of_chains (t t' : Resolve.Tree) (hw : Resolve.WFTree t) (rs : List Result) (r : Result) (x y : String)
+    (fuel n : Nat) (h : Resolve.RenamedFor t t' rs x y)
+    (hr : r ∈ rs) (hname : r.b.name = some x) (hfin : r.final = some y)
+    (horig : Resolve.getBinding t x fuel n = some r.b.home)
+    (chain : ∀ a, Resolve.Anc t a n → r.b.home < a → a ∈ r.b.scope)
+    (clash : ∀ r' ∈ rs, r'.b.home ≠ r.b.home → (r.renamed = true ∨ r'.renamed = true) → (∃ ns, ns ∈ r.b.scope ∧ ns ∈ r'.b.scope) → r'.final ≠ r.final)
+    (kept : ∀ r' ∈ rs, r'.renamed = false → r'.final = r'.b.name)
+    (homeIn : ∀ r' ∈ rs, r'.b.home ∈ r'.b.scope) :
+    Resolve.getBinding t' y fuel n = Resolve.getBinding t x fuel n :=
+  Resolve.lookup_after_renaming_of_chains t t' hw rs r x y fuel n h hr hname hfin horig chain clash kept homeIn
+
+-- Non-vacuity of T03.7: `Resolve.exWF`, `Resolve.exChain` and `Resolve.exAppliesChains` instantiate both theorems on the example tree.
+example : Resolve.WFTree Resolve.exT := Resolve.exWF
 
 -- Non-vacuity of T03.6: every hypothesis holds for module {value ↦ A} / function {local_one ↦ B} with a read of `value` in the
 -- function (`Resolve.exRenamed`, `Resolve.exApplies` instantiate the theorem), and the conclusion is what evaluation gives.
